@@ -92,7 +92,6 @@ pub fn eval(case: &Case) -> CaseOut {
     out.hash = run::hash_str(&serde_json::to_string(case).unwrap_or_default());
     let mut cfg = RunCfg::new(&[Aspect::Panic, Aspect::Budget]);
     cfg.flush_each = false;
-    cfg.known.dst_inside_src = true;
     let mut vol = case.vol.clone();
     vol.access_date = false;
     let mut run = match Run::new(&cfg, &vol) {
